@@ -48,6 +48,12 @@ type constructorNode struct {
 	// Whether the constructor owned by this node was already called.
 	called bool
 
+	// Whether the constructor is being built (its arguments are being built
+	// or it is running), and how many decorators the container had started
+	// when that began.
+	building      bool
+	buildingSince uint64
+
 	// Type information about constructor parameters.
 	paramList paramList
 
@@ -144,6 +150,22 @@ func (n *constructorNode) Call(c containerStore) (err error) {
 	if n.called {
 		return nil
 	}
+
+	// Every Scope verifies its own view of the graph, but constructors are
+	// built in the view of the Scope they were provided to: a cycle that runs
+	// through several views is in none of them. A constructor that is being
+	// built may be entered again only by a decorator of one of its
+	// dependencies that consumes its result; anything else is a cycle.
+	root := n.s.rootScope()
+	if n.building && n.buildingSince == root.decoratorsStarted {
+		return newErrInvalidInput("cycle detected in dependency graph", errCycleDetected{
+			Path:  []cycleErrPathEntry{{Key: key{t: n.ctype}, Func: n.location}},
+			scope: n.origS,
+		})
+	}
+	wasBuilding, since := n.building, n.buildingSince
+	n.building, n.buildingSince = true, root.decoratorsStarted
+	defer func() { n.building, n.buildingSince = wasBuilding, since }()
 
 	// The constructor's dependencies are resolved as seen from c, which is
 	// not necessarily the Scope whose graph the caller verified: an exported
